@@ -74,6 +74,21 @@ def total_order(ctx, eng, st, goal_cell, a, b):
     return eng.exec_fn(st, f[0], [RefV(goal_cell, 0), RefV(Cell(Opaque(a)), 0), RefV(Cell(Opaque(b)), 0)])
 
 
+def goal_case(res, n, sols):
+    """fitness[layer][solution] as IEEE bit patterns from the counter-model"""
+    if res.model is None:
+        return
+    m = res.model
+    fitness = []
+    for i in range(n):
+        row = []
+        for s in sols:
+            v = m.eval(z3.fpToIEEEBV(z3.FP(f'fitness_obj{i}_{s}', F64)), model_completion=True)
+            row.append(str(v.as_long()))
+        fitness.append(row)
+    res.case = {'kind': 'goal_order', 'fitness': fitness, 'solutions': list(sols)}
+
+
 def ob_goal_order(ctx, n):
     """C09: a goal built from n single-objective layers by the real GoalBuilder compares solutions reflexively and
     antisymmetrically for EVERY f64 bit pattern of the fitness values, and on NaN-free values equals the lexicographic
@@ -107,6 +122,7 @@ def ob_goal_order(ctx, n):
                 break
             continue
         if not decide_claim(ctx, res, env, st, out.discr == 0, what=f'{name}: cmp(a,a) == Equal'):
+            goal_case(res, n, ('a',))
             break
         res.witnesses += int(witness(ctx, res, env, st, z3.BoolVal(True)))
     # antisymmetric
@@ -119,6 +135,7 @@ def ob_goal_order(ctx, n):
                 continue
             ab, ba = out
             if not decide_claim(ctx, res, env, st, ab.discr == -ba.discr, what=f'{name}: cmp(a,b) == reverse(cmp(b,a))'):
+                goal_case(res, n, ('a', 'b'))
                 break
             res.witnesses += int(witness(ctx, res, env, st, ab.discr == -1))
     # lexicographic equivalence on NaN-free fitness
@@ -135,6 +152,7 @@ def ob_goal_order(ctx, n):
                 fa, fb = fit(env, i, 'a'), fit(env, i, 'b')
                 ref = z3.If(z3.fpLT(fa, fb), -1, z3.If(z3.fpGT(fa, fb), 1, ref))
             if not decide_claim(ctx, res, env, st, out.discr == ref, nan_free, what=f'{name}: cmp == lexicographic order of the fitness vectors (+0 == -0)'):
+                goal_case(res, n, ('a', 'b'))
                 break
             res.witnesses += int(witness(ctx, res, env, st, z3.And(out.discr == 1, *nan_free)))
     if res.status == 'holds' and res.witnesses == 0:
